@@ -87,3 +87,21 @@ let moves (line : string) : string =
     Buffer.contents b
 
 let () = Reg.register "MOVES" moves
+
+(* ATTACKS: "<kind> <square> <occupancy hex>" *)
+let attacks_h (line : string) : string =
+  match split_ws line with
+  | [k; sq; occ] ->
+    let s = n_of_int (int_of_string sq) and o = n_of_hex occ in
+    let w = N0 and b = n_of_int 1 in
+    hex_of_n (match k with
+      | "r" -> rook_attacks s o | "b" -> bishop_attacks s o | "q" -> queen_attacks s o
+      | "n" -> knight_attacks s | "k" -> king_attacks s
+      | "pw" -> pawn_attacks w s | "pb" -> pawn_attacks b s
+      | "mr" -> rook_mask s | "mb" -> bishop_mask s
+      | "uw" -> pushes_by_square w s o | "ub" -> pushes_by_square b s o
+      | _ -> failwith "ATTACKS: kind")
+  | _ -> failwith "ATTACKS: bad case"
+
+let () = Reg.register "ATTACKS" attacks_h
+let () = Reg.register "ATTACKS-ALL" attacks_h
